@@ -229,7 +229,10 @@ class CHECK(Check):
                    "Gram-Schmidt residual and sample covariance in Fractions. Lifted-model-vs-oracle disagreements are HARNESS-ERRORs "
                    "only while Generated/CorrRemoverSrc.lean has the pinned content, else broken tie `C15.src_model_eq`.")
     trusted = ("numpy.linalg.lstsq is modelled by its defining property (normal equations Scᵀ(Z − Sc·beta) = 0), whose residual "
-               "is evaluated exactly by the driver for every fitted beta_",
+               "is evaluated exactly by the driver for every fitted beta_; this is assumed ONLY for the lifted rcond = None (numpy's "
+               "machine-precision cut-off; CorrL.lstsqAssumed, theorem lifted_lstsq_untruncated): an explicit numeric rcond in the source "
+               "is lifted as `some q`, under which nothing is assumed and the src_* theorems no longer elaborate; any other rcond is "
+               "refused; the rcond actually passed during fit is recorded and compared with the lifted one",
                "sklearn validate_data / DataFrame -> ndarray conversion (checked only through the correspondence)",
                "harness/lifters/corr_remover.py: symbolic inlining of fit / transform, entry-wise reading of numpy broadcasting "
                "(`S - mean` row-wise, `.dot(beta_)` as the row-by-matrix product, np.atleast_2d as identity on 2-d blocks), list / dict "
